@@ -45,12 +45,21 @@ VAR_EXTRA = [[m, None] for m in MODS] + [
     ['size', '3'], ['size', '12'], ['etc', '..'], ['etc', 'a>b'],
     ['null', 'nil val'], ['missing', 'm m'], ['fmt', 'upper'],
     ['fmt', '%s!'], ['fmt', 'html-quote'], ['fmt', 'x) y'],
-    ['null', ''], ['fmt', 'collection-length']]
+    ['null', ''], ['fmt', 'collection-length'],
+    # punctuation that may stand unquoted in an attribute value
+    ['missing', 'n\\a'], ['null', '\\'], ['etc', "~!@#$^&*+|/?.,:;'`{}[]<"],
+    ['missing', "it's"], ['etc', '%'], ['null', 'a\\b\\'], ['etc', '(('],
+    ['missing', '-'], ['null', '&amp;'], ['etc', ']!['], ['missing', '%(x)s']]
 IN_EXTRA = [['reverse', None], ['sort', 'va'], ['sort', 'va,xi/cmp/desc'],
             ['size', '2'], ['start', '2'], ['end', '2'], ['orphan', '1'],
             ['overlap', '1'], ['sort_expr', "'va'"],
             ['reverse_expr', 'ct > 0'], ['skip_unauthorized', None],
             ['start', 'vn'], ['sort', 'va/nocase']]
+
+
+def mix(p, j):
+    """Spread the small integers drawn by Hypothesis over a table."""
+    return ((p + 1) * 2654435761 + j * 40503) >> 5
 
 
 def decorate(ast, picks):
@@ -66,13 +75,13 @@ def decorate(ast, picks):
         if k == 'var' and p % 2 == 0:
             opts = {o[0]: o[1] for o in n.get('opts', [])}
             for j in range(p % 4):
-                name, val = VAR_EXTRA[(p * 7 + j * 13) % len(VAR_EXTRA)]
+                name, val = VAR_EXTRA[mix(p, j) % len(VAR_EXTRA)]
                 opts.setdefault(name, val)
             n['opts'] = [[a, b] for a, b in opts.items()]
         if k == 'in' and p % 3 != 0:
             opts = {o[0]: o[1] for o in n.get('opts', [])}
             for j in range(1 + p % 3):
-                name, val = IN_EXTRA[(p * 5 + j * 11) % len(IN_EXTRA)]
+                name, val = IN_EXTRA[mix(p, j) % len(IN_EXTRA)]
                 opts.setdefault(name, val)
             if ('orphan' in opts or 'overlap' in opts) and not (
                     set(opts) & {'size', 'start', 'end'}):
